@@ -247,6 +247,393 @@ def _export_binary(fn: ast.FunctionDef) -> dict:
     return out
 
 
+
+# ------------------------------------------------------------------------------------------------ scalar codecs
+def _top_func(tree: ast.Module, name: str) -> ast.FunctionDef:
+    for n in tree.body:
+        if isinstance(n, ast.FunctionDef) and n.name == name:
+            return n
+    _fail(f'function {name} not found')
+
+
+def _body(fn: ast.FunctionDef) -> list[ast.stmt]:
+    """Statements of a function without its docstring."""
+    b = list(fn.body)
+    if b and isinstance(b[0], ast.Expr) and isinstance(b[0].value, ast.Constant) and isinstance(b[0].value.value, str):
+        b = b[1:]
+    return b
+
+
+def _binconv_shapes(tree: ast.Module) -> None:
+    """_binconv_basic / _binconv_cls must be the recognised closures over `shape = Struct(fmt)`."""
+    basic = [ast.unparse(x) for x in _body(_top_func(tree, '_binconv_basic'))]
+    want_basic = ['shape = Struct(fmt)',
+                  None,       # def unpack
+                  'ns = globals()', "ns['_struct_' + name] = shape", "ns[f'_conv_{name}_to_binary'] = shape.pack",
+                  "ns[f'_conv_binary_to_{name}'] = unpack"]
+    fb = _body(_top_func(tree, '_binconv_basic'))
+    if len(basic) != len(want_basic) or any(w is not None and w != g for w, g in zip(want_basic, basic)):
+        _fail(f'_binconv_basic: unrecognised body {basic}')
+    inner = fb[1]
+    if not (isinstance(inner, ast.FunctionDef) and inner.name == 'unpack'
+            and [ast.unparse(x) for x in _body(inner)] == ['[val] = shape.unpack(byt)', 'return val']):
+        _fail('_binconv_basic: unrecognised inner unpack')
+    cls = [ast.unparse(x) for x in _body(_top_func(tree, '_binconv_cls'))]
+    if cls != ['shape = Struct(fmt)', 'ns = globals()', "ns['_struct_' + name] = shape",
+               "ns[f'_conv_{name}_to_binary'] = lambda val: shape.pack(*val)",
+               "ns[f'_conv_binary_to_{name}'] = lambda byt: Tup(*shape.unpack(byt))"]:
+        _fail(f'_binconv_cls: unrecognised body {cls}')
+
+
+ROUNDERS = {'round': 'RNearestEven', 'int': 'RTrunc', 'math.floor': 'RFloor', 'floor': 'RFloor',
+            'math.ceil': 'RCeil', 'ceil': 'RCeil', 'math.trunc': 'RTrunc', 'trunc': 'RTrunc'}
+
+
+def _int_valued_float(node: ast.AST, where) -> int:
+    if not (isinstance(node, ast.Constant) and isinstance(node.value, (int, float)) and not isinstance(node.value, bool)
+            and float(node.value) == int(node.value) and abs(node.value) < 2 ** 53):
+        _fail(f'scale constant `{ast.unparse(node)}` is not an integer-valued number', where)
+    return int(node.value)
+
+
+def _time_codec(tree: ast.Module) -> dict:
+    """_conv_time_to_binary: `return _struct_time.pack(ROUND(tim.value * C))`;
+    _conv_binary_to_time: `[num] = _struct_time.unpack(byt); return Time(num / C)`."""
+    w = _top_func(tree, '_conv_time_to_binary')
+    arg = w.args.args[0].arg if len(w.args.args) == 1 else _fail('_conv_time_to_binary: one parameter expected', w)
+    b = _body(w)
+    if not (len(b) == 1 and isinstance(b[0], ast.Return) and isinstance(b[0].value, ast.Call)
+            and ast.unparse(b[0].value.func) == '_struct_time.pack' and len(b[0].value.args) == 1 and not b[0].value.keywords):
+        _fail('_conv_time_to_binary: `return _struct_time.pack(...)` expected', w)
+    inner = b[0].value.args[0]
+    if not (isinstance(inner, ast.Call) and ast.unparse(inner.func) in ROUNDERS and len(inner.args) == 1 and not inner.keywords):
+        _fail(f'_conv_time_to_binary: unrecognised integer conversion `{ast.unparse(inner)}`', w)
+    prod = inner.args[0]
+    if not (isinstance(prod, ast.BinOp) and isinstance(prod.op, ast.Mult)):
+        _fail(f'_conv_time_to_binary: unrecognised scaling `{ast.unparse(prod)}`', w)
+    if ast.unparse(prod.left) == f'{arg}.value':
+        mul = _int_valued_float(prod.right, w)
+    elif ast.unparse(prod.right) == f'{arg}.value':
+        mul = _int_valued_float(prod.left, w)
+    else:
+        _fail(f'_conv_time_to_binary: unrecognised scaling `{ast.unparse(prod)}`', w)
+    r = _top_func(tree, '_conv_binary_to_time')
+    rb = _body(r)
+    rarg = r.args.args[0].arg if len(r.args.args) == 1 else _fail('_conv_binary_to_time: one parameter expected', r)
+    if not (len(rb) == 2 and ast.unparse(rb[0]) == f'[num] = _struct_time.unpack({rarg})' and isinstance(rb[1], ast.Return)
+            and isinstance(rb[1].value, ast.Call) and ast.unparse(rb[1].value.func) == 'Time' and len(rb[1].value.args) == 1
+            and not rb[1].value.keywords and isinstance(rb[1].value.args[0], ast.BinOp)
+            and isinstance(rb[1].value.args[0].op, ast.Div) and ast.unparse(rb[1].value.args[0].left) == 'num'):
+        _fail('_conv_binary_to_time: `[num] = _struct_time.unpack(byt); return Time(num / C)` expected', r)
+    div = _int_valued_float(rb[1].value.args[0].right, r)
+    return {'round': ROUNDERS[ast.unparse(inner.func)], 'mul': mul, 'div': div, 'line': w.lineno}
+
+
+def _mat_index(node: ast.AST, var: str, where) -> tuple[int, int]:
+    if not (isinstance(node, ast.Subscript) and ast.unparse(node.value) == var and isinstance(node.slice, ast.Tuple)
+            and len(node.slice.elts) == 2 and all(isinstance(e, ast.Constant) and isinstance(e.value, int) and e.value >= 0
+                                                  for e in node.slice.elts)):
+        _fail(f'unrecognised matrix cell `{ast.unparse(node)}`', where)
+    return node.slice.elts[0].value, node.slice.elts[1].value
+
+
+def _matrix_codec(tree: ast.Module) -> dict:
+    w = _top_func(tree, '_conv_matrix_to_binary')
+    arg = w.args.args[0].arg if len(w.args.args) == 1 else _fail('_conv_matrix_to_binary: one parameter expected', w)
+    b = _body(w)
+    if not (len(b) == 1 and isinstance(b[0], ast.Return) and isinstance(b[0].value, ast.Call)
+            and ast.unparse(b[0].value.func) == '_struct_matrix.pack' and not b[0].value.keywords):
+        _fail('_conv_matrix_to_binary: `return _struct_matrix.pack(...)` expected', w)
+    slots = []
+    for a in b[0].value.args:
+        if isinstance(a, ast.Constant) and isinstance(a.value, (int, float)) and not isinstance(a.value, bool) and a.value in (0, 1):
+            slots.append('MOne' if a.value == 1 else 'MZero')
+        else:
+            r, c = _mat_index(a, arg, w)
+            slots.append(f'MCell {r} {c}')
+    r = _top_func(tree, '_conv_binary_to_matrix')
+    rarg = r.args.args[0].arg if len(r.args.args) == 1 else _fail('_conv_binary_to_matrix: one parameter expected', r)
+    rb = _body(r)
+    if not (len(rb) >= 3 and ast.unparse(rb[0]) == f'data = _struct_matrix.unpack({rarg})' and ast.unparse(rb[1]) == 'mat = Matrix()'
+            and ast.unparse(rb[-1]) == 'return mat.freeze()'):
+        _fail('_conv_binary_to_matrix: unrecognised frame', r)
+    cells = []
+    for st in rb[2:-1]:
+        if not (isinstance(st, ast.Assign) and len(st.targets) == 1):
+            _fail(f'_conv_binary_to_matrix: unrecognised statement `{ast.unparse(st)}`', st)
+        tg, val = st.targets[0], st.value
+        tgs = list(tg.elts) if isinstance(tg, ast.Tuple) else [tg]
+        if not (isinstance(val, ast.Subscript) and ast.unparse(val.value) == 'data'):
+            _fail(f'_conv_binary_to_matrix: unrecognised source `{ast.unparse(val)}`', st)
+        sl = val.slice
+        if isinstance(sl, ast.Slice):
+            if not (sl.step is None and isinstance(sl.lower, ast.Constant) and isinstance(sl.upper, ast.Constant)
+                    and isinstance(sl.lower.value, int) and isinstance(sl.upper.value, int)
+                    and 0 <= sl.lower.value and sl.upper.value - sl.lower.value == len(tgs) and isinstance(tg, ast.Tuple)):
+                _fail(f'_conv_binary_to_matrix: slice `{ast.unparse(val)}` does not match its {len(tgs)} targets', st)
+            idx = list(range(sl.lower.value, sl.upper.value))
+        elif isinstance(sl, ast.Constant) and isinstance(sl.value, int) and sl.value >= 0 and not isinstance(tg, ast.Tuple):
+            idx = [sl.value]
+        else:
+            _fail(f'_conv_binary_to_matrix: unrecognised index `{ast.unparse(val)}`', st)
+        for t, i in zip(tgs, idx):
+            rr, cc = _mat_index(t, 'mat', st)
+            cells.append((rr, cc, i))
+    return {'pack': slots, 'unpack': cells, 'line': w.lineno}
+
+
+# ------------------------------------------------------------------------------------------------ header / unicode modes
+UMODES = ['ascii', 'format', 'silent']
+
+
+def _mode_pred(node: ast.AST, where) -> dict:
+    """A test over the string-valued parameter `unicode` -> truth value for each of the three modes."""
+    if isinstance(node, ast.Compare) and isinstance(node.left, ast.Name) and node.left.id == 'unicode' and len(node.ops) == 1:
+        op, rhs = node.ops[0], node.comparators[0]
+        if isinstance(op, (ast.Eq, ast.NotEq)) and isinstance(rhs, ast.Constant) and isinstance(rhs.value, str):
+            return {m: (m == rhs.value) == isinstance(op, ast.Eq) for m in UMODES}
+        if isinstance(op, (ast.In, ast.NotIn)) and isinstance(rhs, (ast.Tuple, ast.List, ast.Set)) \
+                and all(isinstance(e, ast.Constant) and isinstance(e.value, str) for e in rhs.elts):
+            vals = {e.value for e in rhs.elts}
+            return {m: (m in vals) == isinstance(op, ast.In) for m in UMODES}
+    if isinstance(node, ast.BoolOp):
+        parts = [_mode_pred(v, where) for v in node.values]
+        f = all if isinstance(node.op, ast.And) else any
+        return {m: f(p_[m] for p_ in parts) for m in UMODES}
+    if isinstance(node, ast.UnaryOp) and isinstance(node.op, ast.Not):
+        return {m: not v for m, v in _mode_pred(node.operand, where).items()}
+    _fail(f'unrecognised test on the unicode mode `{ast.unparse(node)}`', where)
+
+
+def _ifexp_modes(node: ast.AST, yes, no, where) -> dict:
+    """`YES if <mode test> else NO` -> per mode: is it YES?"""
+    if isinstance(node, ast.IfExp) and isinstance(node.body, ast.Constant) and isinstance(node.orelse, ast.Constant):
+        pred = _mode_pred(node.test, where)
+        if node.body.value in yes and node.orelse.value in no:
+            return pred
+        if node.body.value in no and node.orelse.value in yes:
+            return {m: not v for m, v in pred.items()}
+    _fail(f'unrecognised mode-dependent expression `{ast.unparse(node)}`', where)
+
+
+def _ifexp_bool(node: ast.AST, yes, no, where) -> dict:
+    """`YES if unicode else NO` over the boolean `unicode` of the readers -> {True: is YES?, False: ...}."""
+    if isinstance(node, ast.IfExp) and isinstance(node.body, ast.Constant) and isinstance(node.orelse, ast.Constant):
+        t = node.test
+        neg = False
+        if isinstance(t, ast.UnaryOp) and isinstance(t.op, ast.Not):
+            t, neg = t.operand, True
+        if isinstance(t, ast.Name) and t.id == 'unicode':
+            if node.body.value in yes and node.orelse.value in no:
+                return {True: not neg, False: neg}
+            if node.body.value in no and node.orelse.value in yes:
+                return {True: neg, False: not neg}
+    _fail(f'unrecognised expression `{ast.unparse(node)}`', where)
+
+
+UTF8, ASCII = ('utf8', 'utf-8', 'UTF-8', 'utf_8'), ('ascii', 'ASCII')
+
+
+def _writer_modes(fn: ast.FunctionDef) -> tuple[dict, dict]:
+    """(header flag per mode, utf8 per mode) of export_binary / export_kv2."""
+    flags = [n for n in ast.walk(fn) if isinstance(n, ast.IfExp) and isinstance(n.body, ast.Constant) and isinstance(n.orelse, ast.Constant)
+             and {n.body.value, n.orelse.value} == {b'unicode_', b''}]
+    if not flags:
+        flag = {m: False for m in UMODES}         # the marker is never written
+    elif all(ast.dump(f) == ast.dump(flags[0]) for f in flags):
+        flag = _ifexp_modes(flags[0], (b'unicode_',), (b'',), fn)
+    else:
+        _fail(f'{fn.name}: different unicode_ marker expressions', fn)
+    enc = [n for n in ast.walk(fn) if isinstance(n, ast.Assign) and ast.unparse(n.targets[0]) == 'encoding']
+    if len(enc) != 1:
+        _fail(f'{fn.name}: expected one `encoding = ...`', fn)
+    return flag, _ifexp_modes(enc[0].value, UTF8, ASCII, enc[0])
+
+
+def _header_cfg(tree: ast.Module) -> dict:
+    out = {}
+    out['hb_flag'], out['hb_utf8'] = _writer_modes(_func(tree, 'Element', 'export_binary'))
+    out['hk_flag'], out['hk_utf8'] = _writer_modes(_func(tree, 'Element', 'export_kv2'))
+    p = _func(tree, 'Element', 'parse')
+    # the header regex must capture the optional marker as its first group, bound to unicode_flag
+    regs = [n for n in ast.walk(p) if isinstance(n, ast.Constant) and isinstance(n.value, bytes) and b'encoding' in n.value]
+    if len(regs) != 1 or not regs[0].value.startswith(rb'<!--\s*dmx\s+encoding\s+(unicode_)?('):
+        _fail('parse: the header pattern does not start with the optional (unicode_) group', p)
+    if not any(isinstance(n, ast.Assign) and ast.unparse(n.targets[0]).startswith('(unicode_flag,') and ast.unparse(n.value) == 'match.groups()'
+               for n in ast.walk(p)):
+        _fail('parse: `unicode_flag, ... = match.groups()` not found', p)
+    sets = [n for n in ast.walk(p) if isinstance(n, ast.If) and ast.unparse(n.test) == 'unicode_flag']
+    if not sets:
+        out['flag_sets'] = False
+    elif len(sets) == 1 and [ast.unparse(x) for x in sets[0].body] == ['unicode = True'] and not sets[0].orelse:
+        out['flag_sets'] = True
+    else:
+        _fail('parse: unrecognised use of unicode_flag', p)
+    wr = [n for n in ast.walk(p) if isinstance(n, ast.Call) and ast.unparse(n.func) == 'io.TextIOWrapper']
+    if len(wr) != 1 or [k.arg for k in wr[0].keywords] != ['encoding'] or [ast.unparse(a) for a in wr[0].args] != ['file']:
+        _fail('parse: `io.TextIOWrapper(file, encoding=...)` not recognised', p)
+    out['kv2_utf8'] = _ifexp_bool(wr[0].keywords[0].value, UTF8, ASCII, wr[0])
+    pb = [n for n in ast.walk(p) if isinstance(n, ast.Call) and ast.unparse(n.func) == 'cls.parse_bin']
+    if len(pb) != 1 or [ast.unparse(a) for a in pb[0].args] != ['file', 'enc_vers', 'unicode'] or pb[0].keywords:
+        _fail('parse: `cls.parse_bin(file, enc_vers, unicode)` not recognised', p)
+    b = _func(tree, 'Element', 'parse_bin')
+    enc = [n for n in ast.walk(b) if isinstance(n, ast.Assign) and ast.unparse(n.targets[0]) == 'encoding']
+    if len(enc) != 1:
+        _fail('parse_bin: expected one `encoding = ...`', b)
+    out['bin_utf8'] = _ifexp_bool(enc[0].value, UTF8, ASCII, enc[0])
+    return out
+
+
+# ------------------------------------------------------------------------------------------------ value strings (KV2)
+VEC_TEXT = {'vec2': 'TVec2', 'vec3': 'TVec3', 'vec4': 'TVec4', 'angle': 'TAngle', 'quaternion': 'TQuat'}
+
+
+def _alias(tree: ast.Module, name: str) -> str:
+    """`name = <dotted name>` at module level -> the dotted name."""
+    for n in tree.body:
+        if isinstance(n, ast.Assign) and len(n.targets) == 1 and isinstance(n.targets[0], ast.Name) and n.targets[0].id == name:
+            if isinstance(n.value, (ast.Name, ast.Attribute)):
+                return ast.unparse(n.value)
+            _fail(f'{name}: not an alias of a function', n)
+    _fail(f'{name} not found')
+
+
+def _joined_parts(node: ast.AST, var: str, where, wrap: str | None) -> tuple[list[str], list[str]]:
+    """An f-string `{W(var.c1)}<sep>{W(var.c2)}...` -> (component names, separators)."""
+    if not isinstance(node, ast.JoinedStr):
+        _fail(f'expected an f-string, found `{ast.unparse(node)}`', where)
+    comps, seps = [], []
+    expect_val = True
+    for v in node.values:
+        if isinstance(v, ast.FormattedValue):
+            if not expect_val or v.conversion != -1 or v.format_spec is not None:
+                _fail(f'unrecognised f-string `{ast.unparse(node)}`', where)
+            inner = v.value
+            if wrap is not None:
+                if not (isinstance(inner, ast.Call) and ast.unparse(inner.func) == wrap and len(inner.args) == 1 and not inner.keywords):
+                    _fail(f'component not formatted with {wrap}: `{ast.unparse(inner)}`', where)
+                inner = inner.args[0]
+            if not (isinstance(inner, ast.Attribute) and ast.unparse(inner.value) == var):
+                _fail(f'unrecognised component `{ast.unparse(inner)}`', where)
+            comps.append(inner.attr)
+            expect_val = False
+        elif isinstance(v, ast.Constant) and isinstance(v.value, str):
+            if expect_val:
+                _fail(f'unrecognised f-string `{ast.unparse(node)}`', where)
+            seps.append(v.value)
+            expect_val = True
+        else:
+            _fail(f'unrecognised f-string `{ast.unparse(node)}`', where)
+    if expect_val:
+        _fail(f'f-string ends with a separator `{ast.unparse(node)}`', where)
+    return comps, seps
+
+
+def _value_text(tree: ast.Module) -> dict:
+    out: dict = {}
+    # _fmt_float
+    f = _top_func(tree, '_fmt_float')
+    arg = f.args.args[0].arg if len(f.args.args) == 1 else _fail('_fmt_float: one parameter expected', f)
+    body = _body(f)
+    m = None
+    if len(body) == 3 and ast.unparse(body[1]) == "if res.endswith('.'):\n    return res[:-1]" and ast.unparse(body[2]) == 'return res':
+        m = re.fullmatch(r"res = format\((.+), '\.(\d+)f'\)\.rstrip\('0'\)", ast.unparse(body[0]))
+        strips = True
+    elif len(body) == 1:
+        m = re.fullmatch(r"return format\((.+), '\.(\d+)f'\)", ast.unparse(body[0]))
+        strips = False
+    if m is None:
+        _fail(f'_fmt_float: unrecognised body {[ast.unparse(x) for x in body]}', f)
+    if m.group(1) == arg:
+        adds_zero = False
+    elif m.group(1).replace(' ', '') in (f'{arg}+0.0', f'0.0+{arg}'):
+        adds_zero = True
+    else:
+        _fail(f'_fmt_float: unrecognised operand `{m.group(1)}`', f)
+    out['float_fmt'] = {'adds_zero': adds_zero, 'places': int(m.group(2)), 'strips': strips, 'line': f.lineno}
+    # scalar aliases
+    out['int_funcs'] = (_alias(tree, '_conv_integer_to_string'), _alias(tree, '_conv_string_to_integer'))
+    out['float_funcs'] = (_alias(tree, '_conv_float_to_string'), _alias(tree, '_conv_string_to_float'))
+    # vectors
+    written, read = [], []
+    for key, coq in VEC_TEXT.items():
+        w = _top_func(tree, f'_conv_{key}_to_string')
+        warg = w.args.args[0].arg if len(w.args.args) == 1 else _fail(f'{w.name}: one parameter expected', w)
+        wb = _body(w)
+        if not (len(wb) == 1 and isinstance(wb[0], ast.Return)):
+            _fail(f'{w.name}: a single return expected', w)
+        comps, seps = _joined_parts(wb[0].value, warg, w, '_fmt_float')
+        if any(s_ != ' ' for s_ in seps):
+            _fail(f'{w.name}: components not separated by single spaces', w)
+        written.append((coq, comps))
+        r = _top_func(tree, f'_conv_string_to_{key}')
+        rarg = r.args.args[0].arg if len(r.args.args) == 1 else _fail(f'{r.name}: one parameter expected', r)
+        rb = _body(r)
+        mm = re.fullmatch(r'return (\w+(?:\._make)?)\(parse_vector\(' + rarg + r', (\d+)\)\)', ast.unparse(rb[0])) if len(rb) == 1 else None
+        if mm is None:
+            _fail(f'{r.name}: `return Cls(parse_vector(text, N))` expected', r)
+        read.append((coq, int(mm.group(2))))
+    out['vec_written'], out['vec_read'] = written, read
+    pv = [ast.unparse(x) for x in _body(_top_func(tree, 'parse_vector'))]
+    if pv != ['parts = text.split()', "if len(parts) != count:\n    raise ValueError(f'{text!r} is not a {count}-dimensional vector!')",
+              'return list(map(float, parts))']:
+        _fail(f'parse_vector: unrecognised body {pv}')
+    # colour
+    w = _top_func(tree, '_conv_color_to_string')
+    warg = w.args.args[0].arg
+    wb = _body(w)
+    if not (len(wb) == 1 and isinstance(wb[0], ast.Return)):
+        _fail('_conv_color_to_string: a single return expected', w)
+    comps, seps = _joined_parts(wb[0].value, warg, w, None)
+    if any(s_ != ' ' for s_ in seps):
+        _fail('_conv_color_to_string: components not separated by single spaces', w)
+    out['color_written'] = comps
+    r = _top_func(tree, '_conv_string_to_color')
+    rarg = r.args.args[0].arg
+    rb = _body(r)
+    if not (len(rb) == 2 and ast.unparse(rb[0]) == f'parts = {rarg}.split()' and isinstance(rb[1], ast.If)):
+        _fail('_conv_string_to_color: unrecognised frame', r)
+    reads = []
+    node = rb[1]
+    while True:
+        mm = re.fullmatch(r'len\(parts\) == (\d+)', ast.unparse(node.test))
+        if mm is None or len(node.body) != 1 or not isinstance(node.body[0], ast.Return):
+            _fail(f'_conv_string_to_color: unrecognised branch `{ast.unparse(node.test)}`', node)
+        call = node.body[0].value
+        if not (isinstance(call, ast.Call) and ast.unparse(call.func) == 'Color' and not call.keywords):
+            _fail('_conv_string_to_color: `return Color(...)` expected', node)
+        args = []
+        for a in call.args:
+            ma = re.fullmatch(r'int\(parts\[(\d+)\]\)', ast.unparse(a))
+            if ma:
+                args.append(f'CPart {ma.group(1)}')
+            elif isinstance(a, ast.Constant) and isinstance(a.value, int) and not isinstance(a.value, bool):
+                args.append(f'CConst ({a.value})%Z')
+            else:
+                _fail(f'_conv_string_to_color: unrecognised argument `{ast.unparse(a)}`', node)
+        reads.append((int(mm.group(1)), args))
+        if len(node.orelse) == 1 and isinstance(node.orelse[0], ast.If):
+            node = node.orelse[0]
+            continue
+        if not (len(node.orelse) == 1 and isinstance(node.orelse[0], ast.Raise)):
+            _fail('_conv_string_to_color: the last branch must raise', node)
+        break
+    out['color_read'] = reads
+    # binary blobs
+    w = _top_func(tree, '_conv_binary_to_string')
+    warg = w.args.args[0].arg if len(w.args.args) == 1 else _fail('_conv_binary_to_string: one parameter expected', w)
+    wb = _body(w)
+    mm = re.fullmatch(r"return " + warg + r"\.hex\('(.*)', (-?\d+)\)(\.upper\(\))?", ast.unparse(wb[0])) if len(wb) == 1 else None
+    if mm is None:
+        _fail(f'_conv_binary_to_string: `return byt.hex(sep, n)[.upper()]` expected, found {[ast.unparse(x) for x in wb]}', w)
+    if int(mm.group(2)) < 0 or len(mm.group(1)) != 1:
+        _fail('_conv_binary_to_string: unsupported separator / group size', w)
+    out['hex'] = {'sep': mm.group(1), 'group': int(mm.group(2)), 'upper': mm.group(3) is not None}
+    if _alias(tree, '_conv_string_to_binary') != 'bytes.fromhex':
+        _fail('_conv_string_to_binary is not bytes.fromhex')
+    return out
+
+
 # ------------------------------------------------------------------------------------------------ KV2
 KV2_FIELDS = {'self.type': 'type', 'self.name': 'name', 'attr.name': 'attrname', 'str_value': 'array_value',
               'attr.val_str': 'scalar_value'}
@@ -284,6 +671,129 @@ def _export_kv2(fn: ast.FunctionDef) -> dict:
     if set(fields) != set(KV2_FIELDS.values()):
         _fail(f'_export_kv2: fields found {sorted(fields)}')
     return fields
+
+
+
+def _ref_cond(node: ast.AST, where) -> str:
+    """A condition of the reference if-chain over the atoms is_null / is_stub / uuid in roots."""
+    src = ast.unparse(node)
+    if src in ('child.is_null', 'child is NULL'):
+        return 'CNull'
+    if src in ('child.is_stub', 'isinstance(child, StubElement)'):
+        return 'CStub'
+    if src == 'child.uuid in roots':
+        return 'CRoot'
+    if src == 'child.uuid not in roots':
+        return '(CNot CRoot)'
+    if isinstance(node, ast.BoolOp) and isinstance(node.op, (ast.Or, ast.And)):
+        parts = [_ref_cond(v, where) for v in node.values]
+        op = 'COr' if isinstance(node.op, ast.Or) else 'CAnd'
+        out = parts[-1]
+        for p_ in reversed(parts[:-1]):
+            out = f'({op} {p_} {out})'
+        return out
+    if isinstance(node, ast.UnaryOp) and isinstance(node.op, ast.Not):
+        return f'(CNot {_ref_cond(node.operand, where)})'
+    _fail(f'_export_kv2: unrecognised reference condition `{src}`', where)
+
+
+def _ref_action(body: list[ast.stmt], where) -> str:
+    srcs = [ast.unparse(s) for s in body]
+    def is_write(s, lit):
+        return s.startswith('file.write(') and lit in s
+    if len(srcs) == 1 and is_write(srcs[0], '"element" ""') and '%' not in srcs[0]:
+        return 'ANullRef'
+    if len(srcs) == 1 and is_write(srcs[0], '"element" "%b"') and "% str(child.uuid).encode('ascii')" in srcs[0]:
+        return 'AUuidRef'
+    if srcs and srcs[0].startswith('child._export_kv2(') and all(s == "file.write(b'\\r\\n')" for s in srcs[1:]):
+        return 'AInline'
+    _fail(f'_export_kv2: unrecognised reference branch {srcs}', where)
+
+
+def _kv2_ref_tables(fn: ast.FunctionDef) -> dict:
+    """The two if-chains of _export_kv2 that decide how an element value is written: inside the array loop
+    (`for i, child in enumerate(attr._value)`) and for a scalar attribute."""
+    par = _parents(fn)
+    chains = [n for n in ast.walk(fn) if isinstance(n, ast.If) and not (isinstance(par.get(n), ast.If) and n in par[n].orelse and len(par[n].orelse) == 1
+                                                                        and 'child' in ast.unparse(par[n].test))
+              and any(isinstance(x, ast.Call) and ast.unparse(x.func) == 'child._export_kv2' for x in ast.walk(n))
+              and 'child' in ast.unparse(n.test) and 'isinstance(child, Element)' != ast.unparse(n.test)]
+    out = {}
+    for ch in chains:
+        table = []
+        node = ch
+        while True:
+            table.append((_ref_cond(node.test, node), _ref_action(node.body, node)))
+            if len(node.orelse) == 1 and isinstance(node.orelse[0], ast.If):
+                node = node.orelse[0]
+                continue
+            if not node.orelse:
+                _fail('_export_kv2: reference if-chain without else', node)
+            table.append(('CTrue', _ref_action(node.orelse, node)))
+            break
+        # which site: inside a For over attr._value -> array
+        p_ = ch
+        site = 'scalar'
+        while p_ in par:
+            p_ = par[p_]
+            if isinstance(p_, ast.For) and 'attr._value' in ast.unparse(p_.iter):
+                site = 'array'
+                break
+        if site in out:
+            _fail(f'_export_kv2: two reference if-chains for the {site} site', ch)
+        out[site] = {'table': table, 'line': ch.lineno}
+    if set(out) != {'scalar', 'array'}:
+        _fail(f'_export_kv2: reference if-chains found for {sorted(out)}')
+    return out
+
+
+def _kv2_tokenizer_kwargs(fn: ast.FunctionDef) -> list[tuple[str, bool]]:
+    """parse_kv2: `tok = Tokenizer(file, <bool keywords>)` — the tokenizer options the KV2 parser runs with."""
+    calls = [n for n in ast.walk(fn) if isinstance(n, ast.Call) and ast.unparse(n.func) == 'Tokenizer']
+    if len(calls) != 1:
+        _fail(f'parse_kv2: expected one Tokenizer(...) call, found {len(calls)}')
+    c = calls[0]
+    if [ast.unparse(a) for a in c.args] != ['file']:
+        _fail(f'parse_kv2: unrecognised `{ast.unparse(c)}`', c)
+    out = []
+    known = {'string_bracket', 'string_parens', 'allow_escapes', 'allow_star_comments', 'preserve_comments',
+             'colon_operator', 'plus_operator'}
+    for k in c.keywords:
+        if k.arg not in known or not (isinstance(k.value, ast.Constant) and isinstance(k.value.value, bool)):
+            _fail(f'parse_kv2: unrecognised tokenizer option `{ast.unparse(k)}`', c)
+        out.append((k.arg, k.value.value))
+    return out
+
+
+def _kv2_keyword_roots(tree: ast.Module, fn: ast.FunctionDef) -> tuple[bool, int]:
+    """export_kv2: in the nested layout, are elements whose type is an attribute type keyword made roots?
+    Recognised form: `roots.update(elem.uuid for elem in elements if _kv2_type_is_keyword(elem.type))` in the
+    non-flat branch, with `_kv2_type_is_keyword` the recognised predicate (casefold, 'elementid', strip '_array',
+    ValueType lookup).  Absent -> False (inline elements of such types cannot be parsed back)."""
+    upd = [n for n in ast.walk(fn) if isinstance(n, ast.Call) and ast.unparse(n.func) == 'roots.update']
+    if not upd:
+        return False, fn.lineno
+    if len(upd) != 1 or ast.unparse(upd[0]) != 'roots.update((elem.uuid for elem in elements if _kv2_type_is_keyword(elem.type)))':
+        _fail(f'export_kv2: unrecognised `{ast.unparse(upd[0])}`', upd[0])
+    par = _parents(fn)
+    p_ = upd[0]
+    in_else = False
+    while p_ in par:
+        child, p_ = p_, par[p_]
+        if isinstance(p_, ast.If) and ast.unparse(p_.test) == 'flat':
+            in_else = any(child is x or child in ast.walk(x) for x in p_.orelse)
+            break
+    if not in_else:
+        _fail('export_kv2: roots.update(...) is not in the non-flat branch', upd[0])
+    pred = _top_func(tree, '_kv2_type_is_keyword')
+    body = [ast.unparse(x) for x in _body(pred)]
+    arg = pred.args.args[0].arg if len(pred.args.args) == 1 else _fail('_kv2_type_is_keyword: one parameter expected', pred)
+    want = [f'folded = {arg}.casefold()', "if folded == 'elementid':\n    return True",
+            "if folded.endswith('_array'):\n    folded = folded[:-6]",
+            'try:\n    ValueType(folded)\nexcept ValueError:\n    return False', 'return True']
+    if body != want:
+        _fail(f'_kv2_type_is_keyword: unrecognised body {body}', pred)
+    return True, upd[0].lineno
 
 
 def _kv2_stubs(cls_fns: list[ast.FunctionDef]) -> tuple[bool, int]:
@@ -372,6 +882,9 @@ def translate() -> tuple[str, dict]:
     # VAL_TYPE_TO_IND / ARRAY_OFFSET / IND_TO_VALTYPE
     table = offset = ind_ok = None
     structs: dict[str, tuple[int, int]] = {}
+    fmts: dict[str, str] = {}
+    splat: dict[str, bool] = {}
+    ctor: dict[str, str] = {}
     for n in tree.body:
         tgt = None
         if isinstance(n, ast.AnnAssign) and isinstance(n.target, ast.Name):
@@ -401,11 +914,21 @@ def translate() -> tuple[str, dict]:
                     and isinstance(val.args[0], ast.Constant)):
                 _fail(f'{tgt}: unrecognised struct', n)
             structs[tgt[len('_struct_'):]] = (_calcsize(val.args[0].value, n), n.lineno)
+            fmts[tgt[len('_struct_'):]] = val.args[0].value
         elif isinstance(n, ast.Expr) and isinstance(n.value, ast.Call) and ast.unparse(n.value.func) in ('_binconv_basic', '_binconv_cls'):
             a = n.value.args
             if not (len(a) >= 2 and isinstance(a[0], ast.Constant) and isinstance(a[1], ast.Constant)):
                 _fail('unrecognised _binconv call', n)
             structs[a[0].value] = (_calcsize(a[1].value, n), n.lineno)
+            if a[0].value in fmts:
+                _fail(f'two struct definitions for {a[0].value}', n)
+            fmts[a[0].value] = a[1].value
+            is_cls = ast.unparse(n.value.func) == '_binconv_cls'
+            if n.value.keywords or len(a) != (3 if is_cls else 2) or (is_cls and not isinstance(a[2], ast.Name)):
+                _fail('unrecognised _binconv call', n)
+            splat[a[0].value] = is_cls
+            if is_cls:
+                ctor[a[0].value] = a[2].id
     if table is None or offset is None or not ind_ok:
         _fail('VAL_TYPE_TO_IND / ARRAY_OFFSET / IND_TO_VALTYPE not all found')
     # SIZES: sizes[t] = _struct_<t.name.casefold()>.size for t not STRING/BINARY
@@ -425,23 +948,52 @@ def translate() -> tuple[str, dict]:
         sizes.append((coq, structs[key][0]))
     pb = _parse_bin(_func(tree, 'Element', 'parse_bin'))
     eb = _export_binary(_func(tree, 'Element', 'export_binary'))
+    vtext = _value_text(tree)
+    hdr = _header_cfg(tree)
     kv2 = _export_kv2(_func(tree, 'Element', '_export_kv2'))
+    kv2_refs = _kv2_ref_tables(_func(tree, 'Element', '_export_kv2'))
+    kv2_tok_kw = _kv2_tokenizer_kwargs(_func(tree, 'Element', 'parse_kv2'))
+    kv2_kw_roots, kv2_kw_roots_line = _kv2_keyword_roots(tree, _func(tree, 'Element', 'export_kv2'))
     kv2_stub, kv2_stub_line = _kv2_stubs([_func(tree, 'Element', 'parse_kv2'), _func(tree, 'Element', '_parse_kv2_element')])
     kv1 = _kv1(tree)
+    # scalar codecs
+    _binconv_shapes(tree)
+    tcodec = _time_codec(tree)
+    mcodec = _matrix_codec(tree)
+    for key in ('time', 'matrix'):
+        if key in splat:
+            _fail(f'{key} is built by _binconv_*, expected its own conversion functions')
+    fmt_rows, splat_rows, ctor_rows = [], [], []
+    for coq, member in canon_names.items():
+        if coq in ('TString', 'TBinary', 'TElement'):
+            continue
+        key = member.casefold()
+        fmt_rows.append((coq, fmts[key]))
+        if key in splat:
+            splat_rows.append((coq, splat[key]))
+        elif key not in ('time', 'matrix'):
+            _fail(f'no _binconv_* call for ValueType.{member}')
+        if key in ctor:
+            ctor_rows.append((coq, ctor[key]))
+    for _, f in fmt_rows:
+        if not re.fullmatch(r'[<0-9a-zA-Z?]*', f):
+            _fail(f'struct format {f!r} has characters outside the modelled language')
     side.update(table=[(c, i) for c, i, _ in table], offset=offset, split_cmp=pb['split_cmp'], split_line=pb['split_line'],
                 sizes=sizes, stub_written=eb['stub_written'], stub_line=eb['stub_line'],
                 enc_read={k: v[0] for k, v in pb['enc_read'].items()}, enc_write={k: v[0] for k, v in eb['enc_write'].items()},
                 enc_read_lines={k: v[1] for k, v in pb['enc_read'].items()},
-                kv2_fields=kv2, kv2_stub_keeps_uuid=kv2_stub, kv2_stub_line=kv2_stub_line, kv1=kv1,
+                formats=fmt_rows, time_codec=tcodec, matrix_codec=mcodec, ctor=ctor_rows,
+                value_text=vtext, header=hdr, kv2_fields=kv2, kv2_ref_tables=kv2_refs, kv2_tokenizer_kwargs=kv2_tok_kw, kv2_keyword_types_at_root=kv2_kw_roots, kv2_keyword_roots_line=kv2_kw_roots_line, kv2_stub_keeps_uuid=kv2_stub, kv2_stub_line=kv2_stub_line, kv1=kv1,
                 digests={f: ast_digest(_func(tree, 'Element', f)) for f in
                          ('parse_bin', 'export_binary', 'export_kv2', '_export_kv2', 'parse_kv2', '_parse_kv2_element')})
 
     def encfun(d):
         return 'fun s => match s with ' + ' | '.join(f'{s} => {d[s][0]}' for s in SITES) + ' end'
     b = lambda x: 'true' if x else 'false'
+    umfun = lambda d: ('fun m => match m with UAscii => ' + b(d['ascii']) + ' | UFormat => ' + b(d['format']) + ' | USilent => ' + b(d['silent']) + ' end')
     lines = [
         '(* GENERATED by translate/c14_dmx.py from /repo/src/srctools/dmx.py. Do not edit. *)',
-        'From Coq Require Import NArith List.', 'From SV Require Import Fmt.DmxCodes Fmt.DmxKv1.', 'Import ListNotations.',
+        'From Coq Require Import NArith ZArith List String.', 'From SV Require Import Num.Dec6 Fmt.DmxCodes Fmt.DmxKv1 Fmt.DmxScalar Fmt.DmxKv2 Fmt.DmxValText Fmt.DmxHeader.', 'Import ListNotations.',
         'Open Scope N_scope.',
         'Definition gen_cfg : dmxcfg := {|',
         '  code_table := [' + '; '.join(f'({c}, {i})' for c, i, _ in table) + '];',
@@ -452,6 +1004,41 @@ def translate() -> tuple[str, dict]:
         f'  enc_write := {encfun(eb["enc_write"])};',
         f'  enc_read := {encfun(pb["enc_read"])};',
         '|}.',
+        '(* fixed-width value codecs: struct formats, TIME rounding and scales, MATRIX slot layout *)',
+        'Definition gen_scalar : scalarcfg := {|',
+        '  sc_formats := [' + '; '.join(f'({c}, "{f}"%string)' for c, f in fmt_rows) + '];',
+        '  sc_splat := [' + '; '.join(f'({c}, {b(v)})' for c, v in splat_rows) + '];',
+        f'  sc_time_round := {tcodec["round"]};',
+        f'  sc_time_mul := ({tcodec["mul"]})%Z;',
+        f'  sc_time_div := ({tcodec["div"]})%Z;',
+        '  sc_mat_pack := [' + '; '.join(mcodec['pack']) + '];',
+        '  sc_mat_unpack := [' + '; '.join(f'({r}, {c}, {i})' for r, c, i in mcodec['unpack']) + '];',
+        '|}.',
+        'Definition gen_ctor_classes : list (vtype * string) := [' + '; '.join(f'({c}, "{k}"%string)' for c, k in ctor_rows) + '].',
+        '(* the three unicode modes: header marker and codec of the writers, codec selection of the readers *)',
+        'Definition gen_hdr : hdrcfg := {|',
+        '  hb_flag := ' + umfun(hdr['hb_flag']) + ';',
+        '  hb_utf8 := ' + umfun(hdr['hb_utf8']) + ';',
+        '  hk_flag := ' + umfun(hdr['hk_flag']) + ';',
+        '  hk_utf8 := ' + umfun(hdr['hk_utf8']) + ';',
+        f'  hp_flag_sets_unicode := {b(hdr["flag_sets"])};',
+        f'  hp_bin_utf8 := fun u => if u then {b(hdr["bin_utf8"][True])} else {b(hdr["bin_utf8"][False])};',
+        f'  hp_kv2_utf8 := fun u => if u then {b(hdr["kv2_utf8"][True])} else {b(hdr["kv2_utf8"][False])};',
+        '|}.',
+        '(* value strings of KeyValues2: _fmt_float, the vector / colour texts, the scalar aliases *)',
+        f'Definition gen_float_fmt : fmt_cfg := {{| adds_zero := {b(vtext["float_fmt"]["adds_zero"])}; places := {vtext["float_fmt"]["places"]}; '
+        f'strips := {b(vtext["float_fmt"]["strips"])}; neg_zero_fix := false |}}.',
+        'Definition gen_vec_text_written : list (vtype * list string) := [' +
+        '; '.join(f'({c}, [' + '; '.join(f'"{x}"%string' for x in comps) + '])' for c, comps in vtext['vec_written']) + '].',
+        'Definition gen_vec_text_read : list (vtype * N) := [' + '; '.join(f'({c}, {n})' for c, n in vtext['vec_read']) + '].',
+        'Definition gen_color_text_written : list string := [' + '; '.join(f'"{x}"%string' for x in vtext['color_written']) + '].',
+        'Definition gen_color_text_read : list (N * list cread) := [' +
+        '; '.join(f'({n}, [' + '; '.join(args) + '])' for n, args in vtext['color_read']) + '].',
+        f'Definition gen_hex_sep : list N := {_coq_str(vtext["hex"]["sep"])}.',
+        f'Definition gen_hex_group : N := {vtext["hex"]["group"]}.',
+        f'Definition gen_hex_upper : bool := {b(vtext["hex"]["upper"])}.',
+        f'Definition gen_int_text_funcs : string * string := ("{vtext["int_funcs"][0]}"%string, "{vtext["int_funcs"][1]}"%string).',
+        f'Definition gen_float_text_funcs : string * string := ("{vtext["float_funcs"][0]}"%string, "{vtext["float_funcs"][1]}"%string).',
         '(* KeyValues2 writer: is each interpolated string field escaped, and encoded with the file codec? *)',
     ]
     for k in sorted(kv2):
@@ -459,6 +1046,15 @@ def translate() -> tuple[str, dict]:
         lines.append(f'Definition kv2_{k}_uses_file_codec : bool := {b(kv2[k]["enc_file"])}.')
     lines += [
         f'Definition kv2_stub_keeps_uuid : bool := {b(kv2_stub)}.',
+        '(* how _export_kv2 writes an element value, per site: (condition, action) in if/elif/else order *)',
+        'Definition gen_ref_scalar : rtable := [' + '; '.join(f'({c}, {a})' for c, a in kv2_refs['scalar']['table']) + '].',
+        'Definition gen_ref_array : rtable := [' + '; '.join(f'({c}, {a})' for c, a in kv2_refs['array']['table']) + '].',
+        '(* export_kv2, nested layout: elements whose type name is an attribute type keyword are written at the top level *)',
+        f'Definition kv2_keyword_types_at_root : bool := {b(kv2_kw_roots)}.',
+        '(* parse_kv2: keyword arguments of Tokenizer(file, ...) *)',
+        'Definition gen_kv2_tok_kwargs : list (string * bool) := [' + '; '.join(f'("{k}"%string, {b(v)})' for k, v in kv2_tok_kw) + '].',
+        '(* the values of the ValueType enum (attribute type keywords of KeyValues2) *)',
+        'Definition gen_vtnames : list (list N) := [' + '; '.join(_coq_str(k) for k in VT) + '].',
         '(* KeyValues1 bridge constants *)',
         'Definition gen_kv1 : kv1cfg := {|',
         f'  t_block := {_coq_str(kv1["t_block"])};',
